@@ -426,6 +426,10 @@ func checkSemaBubble(c SemaCase) error {
 						mu.Unlock()
 						<-rel[i]
 						mu.Lock()
+						if state[i] == "released" {
+							mu.Unlock()
+							return // released on its behalf by a "relcancel" step
+						}
 						holders--
 						state[i] = "released"
 						mu.Unlock()
@@ -441,6 +445,28 @@ func checkSemaBubble(c SemaCase) error {
 			case "cancel":
 				if i < c.G {
 					cancels[i]()
+				}
+			case "relcancel":
+				// The slot of holder Arg%16 is released and, before any other
+				// goroutine can run, the context of goroutine Arg/16 is
+				// cancelled: a waiter that was handed the slot finds its
+				// context done when it wakes up.  Whatever Acquire returns to
+				// it, the books must stay right.
+				h, w := a.Arg%16, a.Arg/16
+				mu.Lock()
+				ok := h < c.G && state[h] == "holding" && !relClosed[h]
+				if ok {
+					holders--
+					state[h] = "released"
+					relClosed[h] = true
+				}
+				mu.Unlock()
+				if ok {
+					s.Release()
+					if w < c.G {
+						cancels[w]()
+					}
+					close(rel[h])
 				}
 			case "advance":
 				time.Sleep(time.Duration(a.Arg) * time.Millisecond)
@@ -509,6 +535,11 @@ var semaBubbleProp = vp.Register(vp.Prop[SemaCase]{
 		}
 		for j := 0; j < rapid.IntRange(0, 3).Draw(t, "advances"); j++ {
 			acts = append(acts, Act{Kind: "advance", Arg: rapid.SampledFrom([]int{1, 6, 30}).Draw(t, "ms")})
+		}
+		if rapid.IntRange(0, 2).Draw(t, "relcancel") == 0 {
+			for k := rapid.IntRange(1, 3).Draw(t, "nrelcancel"); k > 0; k-- {
+				acts = append(acts, Act{Kind: "relcancel", Arg: rapid.IntRange(0, c.G-1).Draw(t, "holder") + 16*rapid.IntRange(0, c.G-1).Draw(t, "waiter")})
+			}
 		}
 		c.Script = rapid.Permutation(acts).Draw(t, "script")
 		if rapid.Bool().Draw(t, "burst") {
